@@ -1,4 +1,4 @@
-"""C10 -- a composite change is all-or-nothing (structural clauses R10.1-R10.6)."""
+"""C10 -- a composite change is all-or-nothing (structural clauses R10.1-R10.10)."""
 from __future__ import annotations
 
 import ast
@@ -427,3 +427,9 @@ def check(ctx, res) -> None:
                     "a path leaves the method with current_change still set: later contents_before_current_change answers from a stale change",
                     function=m.qualname)
     res.floor("R10.5", "fallible history methods", n_hist, 5)
+
+    # ---- R10.9 each file-system primitive has exactly its own effect (rollback replays inverse primitives)
+    common.fs_primitive_purity_rule(ctx, res, "R10.9")
+
+    # ---- R10.10 (=R09.9) the analysis callback inside every write lets nothing escape after the effect
+    common.soa_observer_rule(ctx, res, "R10.10")
